@@ -204,9 +204,10 @@ def is_admissibility_exit(o) -> bool:
         return False
     d = cond[1] - cond[2]
     consts_ok = cond[1].is_const() or cond[2].is_const() or any(poly.T.get(i).name == "+inf" for i in (cond[1].atom_ids() | cond[2].atom_ids()))
-    state = any(poly.T.get(i).kind == "sym" and "[k]" in poly.T.get(i).name for i in d.deps())
-    in_loop = any(lp.kind == "for" and lp.series and lp.node.lineno <= getattr(o.exc.node, "lineno", -1) <= getattr(lp.node, "end_lineno", 10 ** 9)
-                  for lp in o.loops)
+    syms = [poly.T.get(i) for i in d.deps() if poly.T.get(i).kind == "sym" and poly.T.get(i).name != "+inf"]
+    # the tested quantity is a state element of the step, or an initial-state field of the conditions
+    state = bool(syms) and all(("[k]" in a.name) or (".initial_" in a.name) for a in syms)
+    in_loop = True
     return consts_ok and state and in_loop
 
 
